@@ -74,7 +74,7 @@ META = {
              "rebuilt by wsInit - readAllFromPosition called at the offset of any commit, with that commit's snapshot meta or "
              "WITHOUT meta: directory scan and sort, getBinlogIndexByPosition, seek (checksum verified against the meta or "
              "recomputed), replay of the remaining chunks = ok, exactly the later events, in order, at the offsets Append "
-             "returned; (restart_takes_replay_result) the writer a restart builds with wsInit from the RESULT of that replay satisfies the history invariant again; (readAll_resume_older_meta) the same replay with the meta of an OLDER commit of the same chunk, the seeded seek variant seekBad refuted by a decide witness; (readAll_from_start) the same from offset 0, LevStart and tag skipped; (readAll_truncated, "
+             "returned; (restart_takes_replay_result) the writer a restart builds with wsInit from the RESULT of that replay satisfies the history invariant again; (readAll_resume_older_meta) the same replay with the meta of an OLDER commit of the same chunk, the seeded seek variant seekBad refuted by a decide witness; (readAll_damaged_prefix_or_collision) crc_record_checked lifted through readAll: with ARBITRARY bytes behind a written prefix in the last chunk, readAll delivers the prefix and any crc record reached in the damaged part makes it fail with a checksum error unless the stored value equals the checksum of the damaged bytes (collision); (readAll_from_start) the same from offset 0, LevStart and tag skipped; (readAll_truncated, "
              "truncate_tail_files, truncate_prefix) a chunk cut at ANY point behind its ROTATE_FROM header - inside an event, a "
              "crc record or its ROTATE_TO - with all later files removed, read through the whole readAll path: no error, exactly "
              "the complete events, a prefix, never a partial event; the single excluded shape, a cut inside a 36-byte ROTATE_FROM "
@@ -92,8 +92,7 @@ META = {
              "outcomes on the real code."),
     "note": ("Trusted: Lean kernel, the correspondence on generated histories (quick 200, thorough 400 histories incl. ~160 with "
              "every truncation offset and every single-bit flip of the last two chunks), gofs memory fs as the file system, "
-             "crc32/md5 as parameters. Remaining partial point: bit flips are proved in reduction form only (crc_record_checked), no end-to-end "
-             "readAll statement for a flipped file list. The md5 chain is NOT verified by the Go reader (decide witness). Known "
+             "crc32/md5 as parameters. Remaining partial point: readAll_damaged_prefix_or_collision carries the side condition that the loop's step budget reaches the crc record (n + 1 <= fuel; that rest/2+4 always suffices is not proved) and is stated for damage in the last chunk. The md5 chain is NOT verified by the Go reader (decide witness). Known "
              "finding truncated-file-header: a last chunk cut inside its 36-byte ROTATE_FROM header (crash inside rotate()) makes "
              "the whole binlog unreadable (scan error; index panic for 1-3 bytes); reproduced by the model (decide witnesses) and "
              "the single exclusion of the truncation theorems. Defect found and fixed in round 1 (sig=append-panic, committed in "
